@@ -51,9 +51,16 @@ impl Drop for Out {
     }
 }
 
+thread_local! {
+    static GUARD_DEPTH: std::cell::Cell<u32> = const { std::cell::Cell::new(0) };
+}
+
 /// Run `f`, turning a panic into Err(message).
 pub fn guard<T>(f: impl FnOnce() -> T) -> Result<T, String> {
-    match catch_unwind(AssertUnwindSafe(f)) {
+    GUARD_DEPTH.with(|d| d.set(d.get() + 1));
+    let r = catch_unwind(AssertUnwindSafe(f));
+    GUARD_DEPTH.with(|d| d.set(d.get() - 1));
+    match r {
         Ok(v) => Ok(v),
         Err(e) => {
             let msg = if let Some(s) = e.downcast_ref::<&str>() {
@@ -68,8 +75,14 @@ pub fn guard<T>(f: impl FnOnce() -> T) -> Result<T, String> {
     }
 }
 
+/// Panics of the code under test (inside `guard`) are data and stay silent; harness bugs are printed.
 pub fn quiet_panics() {
-    std::panic::set_hook(Box::new(|_| {}));
+    let default = std::panic::take_hook();
+    std::panic::set_hook(Box::new(move |info| {
+        if GUARD_DEPTH.with(|d| d.get()) == 0 {
+            default(info);
+        }
+    }));
 }
 
 pub fn cps(s: &str) -> Vec<u32> {
